@@ -15,25 +15,49 @@ def _feat_args(slc):
     return ["--no-default-features", "--features", slc] if slc else []
 
 
-def _install(prop, crate, relp, hname, htext, unwind, solver, prelude, extra):
-    h = model.H(hname, htext, (crate, relp), unwind=unwind, solver=solver)
+def _install(prop, crate, relp, hname, htext, unwind, solver, prelude, extra, src=None):
+    """write the hook file with this one harness; `src` (the model.H it came from) carries the stub attributes, which decide
+    whether the harness compiles and what it means"""
+    if src is not None:
+        import copy
+        h = copy.copy(src)
+    else:
+        h = model.H(hname, htext, (crate, relp), unwind=unwind, solver=solver)
     ws.set_hooks(crate, {relp: model.module_text(prop, [h], prelude, extra)})
 
 
-def _kani_print(pkg, path, slc):
-    cmd = ["cargo", "kani", "-p", pkg, "-Z", "stubbing", "-Z", "concrete-playback", "--concrete-playback=print",
-           "--harness", path, "--exact"] + _feat_args(slc)
-    env = dict(os.environ)
-    env.update(kani.KANI_ENV)
-    try:
-        p = subprocess.run(cmd, cwd=ws.WS, env=env, capture_output=True, text=True, timeout=3600)
-    except subprocess.TimeoutExpired:
-        return None, "concrete playback run timed out"
-    out = p.stdout
-    tests = re.findall(r"(#\[test\]\s*fn\s+(kani_concrete_playback_\w+)\s*\(\)\s*\{.*?\n\})", out, re.S)
-    if not tests:
-        return None, "no concrete playback test printed"
-    return tests, ""
+def _own_playback(h, unknown, result):
+    """Counterexample values from our own CBMC pipeline (kani-driver's `--concrete-playback=print` re-verifies the harness with
+    its default flags - no recursion bounds, no kissat - and did not return within an hour on dispatch-level harnesses)."""
+    md = result.get("_md")
+    run = result.get("_run") or {}
+    if not md:
+        return None, "no kani metadata kept for the harness"
+    want = set(t for t, _ in unknown)
+    props = []
+    for f in result.get("failed", []):
+        d = f.get("desc", "")
+        if f.get("category") in ("unwind", "recursion", "cover"):
+            continue
+        m = re.search(r"VP:[A-Za-z0-9_\-:.]+", d)
+        if (m and m.group(0) in want) or (not m and any(t.startswith(("UB:", "PANIC:", "NONTERM:")) or t == "VP:rejected-by-error-return" for t in want)):
+            props.append(f["property"])
+    if not props:
+        props = [f["property"] for f in result.get("failed", []) if f.get("category") not in ("unwind", "recursion", "cover")]
+    props = props[:4]
+    r = kani.verify_one(md, h.unwind, h.solver, max(600, 2 * int(run.get("timeout", 900))), run.get("rss_gb", 10), run.get("log_dir", "/tmp"),
+                        getattr(h, "rec_limit", None), getattr(h, "cbmc_extra", None), getattr(h, "fs_array", None), trace_props=props)
+    if r.get("status") != "traced":
+        return None, "trace run: " + (r.get("reason") or "no result")
+    with open(r["trace_log"], errors="replace") as f:
+        text = f.read()
+    vals = kani.concrete_values(text)
+    if vals is None:
+        return None, "no counterexample trace in the trace run (%s)" % r["trace_log"]
+    name = "kani_concrete_playback_%s" % h.name
+    body = "#[test]\nfn %s() {\n    let concrete_vals: Vec<Vec<u8>> = vec![\n%s    ];\n    kani::concrete_playback_run(concrete_vals, %s);\n}" % (
+        name, "".join("        vec![%s],\n" % ", ".join(str(b) for b in v) for v in vals), h.name)
+    return [(body, name)], ""
 
 
 def confirm(prop, h, unknown, result, tier, plan):
@@ -44,11 +68,12 @@ def confirm(prop, h, unknown, result, tier, plan):
     rpath = os.path.join(rdir, h.name + ".json")
     crate, relp = h.where
     prelude = "  use paste::paste;\n" + plan.get("incrate_prelude", {}).get((crate, relp), "")
-    _install(prop, crate, relp, h.name, h.text, h.unwind, h.solver, prelude, "")
-    tests, err = _kani_print(h.pkg, h.path, h.slice)
+    _install(prop, crate, relp, h.name, h.text, h.unwind, h.solver, prelude, "", src=h)
+    tests, err = _own_playback(h, unknown, result)
     rec = {"property": prop, "harness": h.path, "harness_name": h.name, "package": h.pkg, "where": [crate, relp], "slice": h.slice,
            "key": h.key, "domain": h.domain, "desc": h.desc, "tags": [t for t, _ in unknown], "details": [d for _, d in unknown],
-           "harness_source": h.text, "unwind": h.unwind, "solver": h.solver, "prelude": prelude, "playback_tests": [], "native": []}
+           "harness_source": h.text, "unwind": h.unwind, "solver": h.solver, "prelude": prelude, "playback_tests": [], "native": [],
+           "attrs": list(getattr(h, "attrs", []) or []), "stub_loc": bool(getattr(h, "stub_loc", False)), "stub_kind": bool(getattr(h, "stub_kind", False))}
     if not tests:
         rec["error"] = err
         with open(rpath, "w") as f:
@@ -63,19 +88,39 @@ def confirm(prop, h, unknown, result, tier, plan):
     return rpath, ok, detail
 
 
+def solver_only_record(prop, h, unknown, result, plan):
+    """record for a counterexample that was not replayed natively (replay cap reached): harness source + failed checks; it can be
+    replayed later with `python3 -m engine.check <prop> --only <harness>`"""
+    rdir = os.path.join(VERIF, "replay", prop)
+    os.makedirs(rdir, exist_ok=True)
+    rpath = os.path.join(rdir, h.name + ".json")
+    crate, relp = h.where
+    rec = {"property": prop, "harness": h.path, "harness_name": h.name, "package": h.pkg, "where": [crate, relp], "slice": h.slice,
+           "key": h.key, "domain": h.domain, "desc": h.desc, "tags": [t for t, _ in unknown], "details": [d for _, d in unknown],
+           "harness_source": h.text, "unwind": h.unwind, "solver": h.solver, "native": [], "reproduced": None,
+           "note": "solver counterexample only: the native replay budget of this run (VERIF_MAX_REPLAYS) was used on other harnesses"}
+    with open(rpath, "w") as f:
+        json.dump(rec, f, indent=1)
+    return rpath
+
+
 def run_native(prop, rec, tests):
     """Put the playback tests next to the harness and run them with `cargo kani playback` (dev, then release)."""
     crate, relp = rec["where"]
     body = "".join(text + "\n" for text, name in tests)
     names = [name for text, name in tests]
+    src = model.H(rec["harness_name"], rec["harness_source"], (crate, relp), unwind=rec.get("unwind"), solver=rec.get("solver"))
+    src.attrs = rec.get("attrs", [])
+    src.stub_loc = rec.get("stub_loc", False)
+    src.stub_kind = rec.get("stub_kind", False)
     _install(prop, crate, relp, rec["harness_name"], rec["harness_source"], rec.get("unwind"), rec.get("solver"),
-             rec.get("prelude", ""), body)
+             rec.get("prelude", ""), body, src=src)
     env = dict(os.environ)
     env.update(kani.KANI_ENV)
     tags = rec["tags"]
     all_ok = False
     details = []
-    for profile in ("dev", "release"):
+    for profile in ("dev",):      # `cargo kani playback` of Kani 0.68 has no --release; dev is the profile Kani models
         for name in names:
             cmd = ["cargo", "kani", "playback", "-Z", "concrete-playback", "-p", rec["package"]] + _feat_args(rec.get("slice"))
             if profile == "release":
